@@ -284,6 +284,19 @@ def D():
     return Program(m, ['e0', 'e1', 'e2', 'e3'])
 
 
+def Dr():
+    """deferral with a second orthogonal region whose guarded row may reject the event that leaves the deferring state"""
+    m = Machine('Dr', [['D0', 'D1'], ['R0', 'R1']],
+                [St('D0', deferred=['e1'])],
+                [Row('D0', 'e0', 'D1', act=1, guard=1),
+                 Row('D1', 'e1', None, act=2),
+                 Row('D1', 'e0', 'D0', act=3),
+                 Row('R0', 'e0', 'R1', act=4, guard=2),
+                 Row('R1', 'e0', 'R0', act=5, guard=3),
+                 Row('R0', 'e2', None, act=6)])
+    return Program(m, ['e0', 'e1', 'e2'])
+
+
 def Da():
     """deferral through the Defer action with a guard (conditional deferral)"""
     m = Machine('Da', [['D0', 'D1']], [],
@@ -311,6 +324,19 @@ def K():
     return Program(m, ['e0', 'eb', 'ed1', 'ed2'], evt_base={'ed1': 'eb', 'ed2': 'ed1'})
 
 
+def FL3():
+    """three levels; a flag carried only by a state of the innermost machine (and by no direct state of the middle one)"""
+    p = H3()
+    low = p.machines[2]
+    assert low.name == 'Low'
+    low.states['L2'].flags = ['F0']
+    p.machines[1].states['N2'].flags = ['F1']
+    p.root.states['T1'].flags = ['F1']
+    p.flags = ['F0', 'F1']
+    p.name = 'FL3'
+    return p
+
+
 def _pol(base, pol):
     p = base()
     for m in p.machines: m.policy = pol
@@ -319,7 +345,7 @@ def _pol(base, pol):
     return p
 
 
-CATALOG = {f.__name__: f for f in (Q, Q1, Q2, D, Da, K, F1, R2, R3, H2, H3, X, HIn, HIa, HIs, A, Ai, T, FL)}
+CATALOG = {f.__name__: f for f in (Q, Q1, Q2, D, Dr, Da, K, FL3, F1, R2, R3, H2, H3, X, HIn, HIa, HIs, A, Ai, T, FL)}
 
 POLICIES = ['after_entry', 'after_transition_action', 'after_exit', 'before_transition']
 for _b in (F1, R2, H2):
